@@ -364,9 +364,11 @@ package queue
 //@   ensures signals == old(signals) + 1
 //@ func isSQLiteBusyError
 //@   trusted
-//@ func mapQueueInsertError
+//@ func isSQLiteConstraintError
 //@   trusted
-//@   ensures err != nil ==> result != nil
+//@ func mapQueueInsertError
+//@   ensures [C02:an_insert_error_is_never_turned_into_success] (err != nil ==> result != nil) && (err == nil ==> result == nil)
+//@   ensures [C02:any_other_error_is_passed_on_unchanged] result != ErrEnvelopeExists ==> result == err
 //@ func marshalStringMap
 //@   trusted
 //@ func (*SQLiteStore).activeDepthCount
@@ -1010,10 +1012,10 @@ package queue
 //@   sets leaseLookups := old(leaseLookups) + 1
 //@   ensures result1 == nil ==> result0 != nil
 //@ func (*SQLiteStore).requeueLeaseIDsTx
-//@   trusted
-//@   requires txOpen
-//@   modifies txPending
-//@   ensures txPending >= old(txPending)
+//@   requires s != nil && conn != nil && txOpen
+//@   modifies durable, txOpen, txPending
+//@   calls execByItemIDsTx requires [C04:expired_leases_of_a_batch_are_released_to_queued_due_now] arg5 == itemIDs && arg3 == "\nUPDATE queue_items\nSET state = ?, lease_id = NULL, lease_until = NULL, next_run_at = ?, dead_reason = NULL\nWHERE id IN (" && len(arg4) == 2 && arg4[0] == "queued" && arg4[1] == unixNanoOf(now)
+//@   ensures txOpen && durable == old(durable) && txPending >= old(txPending)
 //@ func (*SQLiteStore).withLeaseBatch$1
 //@   requires s != nil && conn != nil
 //@   modifies durable, txOpen, txPending
